@@ -143,6 +143,11 @@ class MetaMonitor(Monitor):
                 if len(args) >= 3 and len(anns) >= 2 and want is EMPTY and r.annotation is not EMPTY:
                     ctx.violation('C10', 'MetaMonitor', ANN_FOLD_MECH,
                                   'n-ary merge annotates %r with %r although the annotated contributors disagree' % (r.name, r.annotation), w, rp)
+                elif self.dropped_in_fold(args, r.name):
+                    # same mechanism as for defaults: the metadata of the result parameter is that of the
+                    # later input alone, whatever the earlier contributors said
+                    ctx.violation('C10', 'MetaMonitor', DROP_FOLD_MECH,
+                                  'n-ary merge shows annotation %r for %r, not what the contributors agree on: the parameter was dropped by an intermediate step and re-introduced by a later input' % (r.annotation, r.name), w, rp)
                 else:
                     self.V('merge-annotation', 'annotation of %r is %r, expected %s' % (
                         r.name, r.annotation, 'none' if want is EMPTY else repr(want)), w, rp)
